@@ -262,6 +262,7 @@ func checkC11(c *Ctx) {
 	checkC11Descent(c)
 	checkC11JoinRefs(c)
 	checkC11AllParents(c)
+	checkC11JoinNull(c)
 
 	// ---- key-func ----
 	rf := c.Rule("C11.key-func", "identity maps are written and read through one key function", 4)
